@@ -177,7 +177,7 @@ let monitor ic oc =
          | M.N0 :: _ -> ()
          | M.Npos M.XH :: _ -> ()
          | M.Npos (M.XI M.XH) :: _ -> reach := false; inv := false
-         | nums -> reach := false; nopanic := false; inv := List.length nums >= 16);
+         | nums -> reach := false; nopanic := false; inv := List.length nums >= 17);
         last_blk := None; pending := None
       | 'A' ->
         (match !last_blk, nums_of_line l with
